@@ -98,7 +98,14 @@ macro_rules! impl_bit_value {
                 if val & (1 << (len - 1)) == 0 {
                     val
                 } else {
-                    (!val).wrapping_add(1) | (1 << (len - 1))
+                    // magnitude bits only; a magnitude of zero (only possible for values outside
+                    // the field's range) is written as +0, never as the redundant -0 pattern
+                    let mag = (!val).wrapping_add(1) & !(-1 << (len - 1));
+                    if mag == 0 {
+                        0
+                    } else {
+                        mag | (1 << (len - 1))
+                    }
                 }
             }
         }
